@@ -241,7 +241,9 @@ def run(ctx):
     open(os.path.join(gd, "gentot.h"), "w").write("double total(const double *values, int nvalues);\nvoid scale(float *values, int nvalues, float by);\n"
                                                   "#include <complex.h>\nvoid conj_f(float complex *z);\nvoid conj_f2(float complex *z);\nvoid conj_d(double complex *z);\nvoid conj_d2(double complex *z);\n"
                                                   "struct Particle { int id; long cookie; double mass; };\ntypedef struct Particle Particle;\n"
-                                                  "void fill_particle(Particle *p, int id, double mass);\ndouble particle_mass(const Particle *p);\n")
+                                                  "void fill_particle(Particle *p, int id, double mass);\ndouble particle_mass(const Particle *p);\n"
+                                                  "struct Grid { int id; double plane[2][3]; double cube[2][3][4]; double t[2][3][4][5]; int v[6]; };\ntypedef struct Grid Grid;\n"
+                                                  "double grid_probe(const Grid *g);\n")
     totlib = {"library": "gentot", "language": "c", "c_header": "gentot.h", "options": {"wrap_python": False, "wrap_lua": False},
               "declarations": [{"decl": "double total(const double *values, int nvalues)",
                                 "fortran_generic": [{"decl": "(const float *values+rank(1))"}, {"decl": "(const double *values+rank(1))"},
@@ -255,6 +257,9 @@ def run(ctx):
                                {"decl": "void conj_d(complex double *z)"}, {"decl": "void conj_d2(double complex *z)"},
                                {"decl": "void fill_particle(Particle *p +intent(out), int id, double mass)"},
                                {"decl": "double particle_mass(const Particle *p)"},
+                               # array members up to rank 4: the derived type's extents are the C extents in reverse order
+                               {"decl": "struct Grid { int id; double plane[2][3]; double cube[2][3][4]; double t[2][3][4][5]; int v[6]; };"},
+                               {"decl": "double grid_probe(const Grid *g)"},
                                {"decl": "void scale(float *values +intent(inout), int nvalues, float by)",
                                 "fortran_generic": [{"decl": "(float *values+rank(1)+intent(inout))"}, {"decl": "(float *values+rank(2)+intent(inout))"}]}]}
     yp = os.path.join(gd, "gen-c-generic.yaml")
